@@ -5,8 +5,8 @@ from harness.core import clist, cnat, copt, cq, cz
 
 ID = "C16"
 MODEL_TARGETS = ["C16/Cases.vo"]
-PROOF_TARGETS = ["C16/Proofs.vo"]
-OBLIGATION_FILES = []
+PROOF_TARGETS = ["C16/Proofs.vo", "C16/Prog.vo", "C16/Gen.vo", "C16/Bridge.vo"]
+OBLIGATION_FILES = ["C16/Bridge.v"]
 PROPS_FILE = "C16/Props.v"
 SHARD = 40
 PER_CASE_TIMEOUT = 150
@@ -23,6 +23,21 @@ RULE = ("one case = one estimator fitted ONCE by the real code, then applied to 
         "drawn per case). non-trivial = the batch was accepted, has >= 2 pairwise different output "
         "rows and at least one non-identity permutation was run; distinct = distinct canonical JSON case")
 TRUSTED = [
+    "translator/rowwise_c16.py (row-flow extractor, fail closed): an abstract interpreter over the "
+    "Python ast of every transform / predict / predict_proba of the anchored panel estimators; it "
+    "classifies each statement into the panel-program language of coq/C16/Prog.v or marks the method "
+    "not-translated.  Its scoping / data-flow rules (kinds P, N, IDX, ROW, PANEL, B; no stores to self; "
+    "row-loop-carried values are batch data; validation statements excluded) are trusted; the "
+    "instance-axis bookkeeping (axis numbers, index tuples, allocation shapes, row-loop accesses) is "
+    "re-done by `compile` in Coq on the emitted terms (Bridge.gen_table_ok), and the methods that must "
+    "be in the language are pinned (Bridge.expected_are_translated)",
+    "panel programs: the per-row functions, vectorised operations and fitted members are OPAQUE symbols "
+    "(their bodies are not translated); assumed: opaque callees are pure functions of their arguments, "
+    "an operation called with axis=k acts independently along the other axes, fitted members "
+    "(clf.predict, self.pca.transform, self.clf.predict_proba, SFA members with their [bags] output "
+    "convention) are row-wise, batch-independent operands broadcast along non-instance axes, loops "
+    "over batch-independent ranges run at least once; a program denotes the result when no exception "
+    "is raised (validation statements may read the batch)",
     "hand-written Gallina model; the closed-form transformers are C14's definitions (imported from "
     "coq/C14/Model.v, tied to the code by C14's and by this run's in-Coq recomputation of every batch "
     "and every variant output); containers are C15's definitions (coq/C15/Model.v) and its proved "
@@ -289,6 +304,21 @@ def _gen_learned(rng, est):
     c["cfg"] = cfg
     c["perms"], c["sub"] = _variants(rng, c["n_test"])
     return c
+
+
+def translate(repo):
+    from translator import rowwise_c16
+    return rowwise_c16.translate(repo)      # raises on a source shape it cannot even index
+
+
+def method_table(repo=None):
+    """(translated, sampled-only) methods of the regenerated table, for the evidence"""
+    import os
+    from translator import rowwise_c16
+    rows = rowwise_c16.extract(repo or os.environ.get("VERIF_REPO", "/repo"))
+    done = {k: {"delegates_to": d, "assumes": a} for k, st, _, d, a in rows if st == "ok"}
+    rest = {k: p for k, st, p, _, _ in rows if st != "ok"}
+    return done, rest
 
 
 def gen_cases(rng, tier):
@@ -1046,6 +1076,15 @@ def coq_model_term(case):
     n = case["n_test"]
     return "(%s)" % ", ".join("pick %s (seq 0 %s)" % (_cidx(p), cnat(n))
                               for p in (case["perms"] + [case["sub"]]))
+
+
+def extra_coverage(cases, results, tier):
+    try:
+        done, rest = method_table()
+    except Exception as e:      # the build step reports a failing translator as a broken tie
+        return {"row_flow_extractor": "failed: %s" % e}
+    return {"row_flow_translated_methods": len(done), "row_flow_sampled_only_methods": len(rest),
+            "row_flow_translated": done, "row_flow_sampled_only": rest}
 
 
 def distribution(cases, results):
